@@ -248,7 +248,7 @@ def gen_problem(t, D, feat=None, agents=0):
     for i in range(agents):
         objs[agnames[i]] = "agent"
     # object names include ones that embed an agent's name at a hyphen boundary
-    onames = t.shuffle(["o0", "o1", "o10", "o-1", "o_1", "o1a", "oo", "o2", "o3"] + (
+    onames = t.shuffle(["o0", "o1", "o10", "o-1", "o_1", "o1a", "oo", "o2", "o3", "nop"] + (
         [f"pad-{agnames[0]}", f"{agnames[-1]}-b"] if agents else []))
     nobj = 2 + t.draw(max(1, f["max_objects"] - 1))
     if D["constants"] and not agents and t.chance(1, 12):
